@@ -848,9 +848,9 @@ func init() {
 			depth int
 			dl    time.Duration
 		}
-		jobs := []job{{"c14/one-stale2", 9, 30 * time.Second}, {"c14/two-stale2", 6, 25 * time.Second}, {"c14/one-stale3-rich", 7, 12 * time.Second}}
+		jobs := []job{{"c14/one-stale2", 8, 35 * time.Second}, {"c14/two-stale2", 6, 30 * time.Second}, {"c14/one-stale3-rich", 6, 15 * time.Second}}
 		if ev.Tier() == "thorough" {
-			jobs = []job{{"c14/one-stale2", 11, 5 * time.Minute}, {"c14/one-stale3-rich", 10, 4 * time.Minute}, {"c14/two-stale2", 7, 5 * time.Minute}}
+			jobs = []job{{"c14/one-stale2", 10, 5 * time.Minute}, {"c14/one-stale3-rich", 9, 5 * time.Minute}, {"c14/two-stale2", 7, 5 * time.Minute}}
 		}
 		if d := os.Getenv("C14_JOB"); d != "" { // development: C14_JOB=scenario:depth
 			var n string
